@@ -172,7 +172,11 @@ fn parse_anchor(s: &str) -> std::result::Result<AtAnchor, String> {
 }
 
 fn split_map(rest: &str) -> Option<(String, String)> {
-    let (a, b) = rest.split_once("=>")?;
+    // `|=>` is the unambiguous separator (for keys/values that contain `=>` themselves, e.g. a `match`)
+    let (a, b) = match rest.split_once("|=>") {
+        Some(x) => x,
+        None => rest.split_once("=>")?,
+    };
     Some((a.trim().to_string(), b.trim().to_string()))
 }
 
